@@ -27,7 +27,7 @@ static void se3_parts(c16::Harness<G> & h)
 }
 MC_SUBCHECK(se)
 {
-  const int d = mc::thorough() ? 7 : 4;
+  const int d = mc::thorough() ? 7 : 5;
   {
     c16::Harness<SE2d> h("SE2d");
     se2_parts(h);
